@@ -74,6 +74,9 @@ def vary(rng, x, p=0.35):
 def gen_history(rng, tier, threaded):
     quick = tier == "quick"
     base = c15.CAST_DOC if rng.random() < 0.3 else c15._stringy(rng, G.doc(rng, 3, 4), 0.3)
+    if rng.random() < 0.25 and type(base) is dict:
+        # a wide mapping (>= 20 entries) next to the rest
+        base = dict(base, wide={f"w{i}": rng.choice(["1", "x", i, None, "true"]) for i in range(rng.randint(20, 40))})
     # documents are variants of one another (same shape, other leaf values) plus unrelated ones
     docs = [base] + [vary(rng, base) if rng.random() < 0.7 else c15._stringy(rng, G.doc(rng, 3, 4), 0.3)
                      for _ in range(rng.randint(1, 4))]
